@@ -28,7 +28,9 @@ Objs ==
   \cup UNION {{KOf(s, R, off) : R \in 1..3, off \in {0, 13}} : s \in ShapesF}
   \* header numbers with more than one digit: rank 10 and 12, a mode of length 11, a matrix with 10 columns
   \cup {KOf(<<2, 3>>, 10, 0), KOf(<<3>>, 12, 13), KOf(<<11, 2>>, 2, 0), MOf(2, 10, 0), MOf(12, 1, 4),
-        DenseOf(<<10, 2>>, 0), SparseOf(<<12, 10>>, {1, 55, 120}, FALSE, 5), SparseOf(<<2, 3, 2>>, 1..12, TRUE, 0)}
+        DenseOf(<<10, 2>>, 0), SparseOf(<<12, 10>>, {1, 55, 120}, FALSE, 5), SparseOf(<<2, 3, 2>>, 1..12, TRUE, 0),
+        \* more stored entries than any block size a writer is likely to use
+        [kind |-> "sparse", shape |-> <<4500>>, subs |-> [k \in 1..4500 |-> <<k - 1>>], vals |-> [k \in 1..4500 |-> V(k + 3)]]}
   \cup {MOf(r, c, off) : r \in 1..3, c \in 1..3, off \in {0, 4}}
 
 Stimuli == {[obj |-> o, base |-> b] : o \in Objs, b \in 0..1}
